@@ -392,7 +392,7 @@ func rotationInPlaceAt(t *testing.T, r *ev.Run, past time.Duration) {
 		return c
 	}()}, {"session-cache", func() world.Cfg {
 		c := world.Default(0, 0, 0)
-		c.SessCache, c.SessCap, c.SessDur = true, 100, 10000 * time.Hour
+		c.SessCache, c.SessCap, c.SessDur = true, 100, 10000*time.Hour
 		return c
 	}()}} {
 		name := fmt.Sprintf("rotation-in-place/%s/%s-past-expiry", nc.name, past)
@@ -429,9 +429,9 @@ func rotationInPlaceAt(t *testing.T, r *ev.Run, past time.Duration) {
 				time.Sleep(E - 2*time.Minute)
 				c.op(cs, nil, "", []byte("x"), ikid)
 				time.Sleep(time.Until(born.Add(E + past))) // both keys are expired now, their cache entries are still fresh
-				c.done = map[string]bool{}  // what follows is a new generation: nothing is a repeat yet
-				c.op(cs, nil, "", []byte("x"), ikid) // rotates in place
-				c.op(cs, nil, "", []byte("x"), ikid) // repeat: no external call
+				c.done = map[string]bool{}                 // what follows is a new generation: nothing is a repeat yet
+				c.op(cs, nil, "", []byte("x"), ikid)       // rotates in place
+				c.op(cs, nil, "", []byte("x"), ikid)       // repeat: no external call
 				var others []*c20sess
 				for i := 1; i <= 4 && !c.failed; i++ {
 					o := mk(fmt.Sprintf("part%d", i))
